@@ -117,7 +117,7 @@ namespace sim
   }
 
   template <bool Pocca, bool Pocma, bool Pocs, bool AlwaysEqual, class SizeT = std::size_t,
-            unsigned long MaxSize = 0, bool SocccToggle = false, bool ConstructMembers = false,
+            unsigned long MaxSize = 0, bool SocccToggle = false, int ConstructMembers = 0,
             bool Hint = false>
   struct alloc_cfg
   {
@@ -126,7 +126,10 @@ namespace sim
     static const bool pocs              = Pocs;
     static const bool always_equal      = AlwaysEqual;
     static const bool soccc_toggles     = SocccToggle;
-    static const bool construct_members = ConstructMembers;
+    // 0: none; 1: variadic construct (p, args...) + destroy (p); 2: C++03 style construct (p, const T&)
+    // + destroy (p) only (every other construction is the container's own placement new)
+    static const int  construct_mode    = ConstructMembers;
+    static const bool construct_members = ConstructMembers != 0;
     static const bool has_max_size      = (MaxSize != 0);
     static const bool has_hint          = Hint;
     static const unsigned long max_size_value = MaxSize;
@@ -161,7 +164,7 @@ namespace sim
     }
   };
 
-  template <class T, class Cfg, bool Has = Cfg::construct_members>
+  template <class T, class Cfg, int Mode = Cfg::construct_mode>
   struct alloc_construct_mixin
   { };
 
@@ -176,9 +179,13 @@ namespace sim
   { };
 
   template <class T, class Cfg>
-  struct alloc_construct_mixin<T, Cfg, true>
+  struct alloc_construct_mixin<T, Cfg, 1>
   {
-    template <class U, class... Args>
+    // constrained on purpose: with an unconstrained construct() template the header's
+    // is_explicitly_copy_insertable reports true for move-only elements, and relocation of a
+    // move-only type with a throwing move constructor then fails to COMPILE (observation, DESIGN 6)
+    template <class U, class... Args,
+              class = decltype (::new (static_cast<void *> (0)) U (std::declval<Args> ()...))>
     void
     construct (U *p, Args&&... args)
     {
@@ -186,8 +193,8 @@ namespace sim
       // construction that allocates) even when U's constructor is noexcept
       G ().construct_is_move = is_move_of<U, Args...>::value;
       on_event (EV_ALLOC_CONSTRUCT);
-      ++CS ().constructs;
       ::new (static_cast<void *> (p)) U (std::forward<Args> (args)...);
+      ++CS ().constructs;
     }
 
     template <class U>
@@ -196,6 +203,26 @@ namespace sim
     {
       ++CS ().destroys;
       p->~U ();
+    }
+  };
+
+  template <class T, class Cfg>
+  struct alloc_construct_mixin<T, Cfg, 2>
+  {
+    void
+    construct (T *p, const T& v)
+    {
+      G ().construct_is_move = false;
+      on_event (EV_ALLOC_CONSTRUCT);
+      ::new (static_cast<void *> (p)) T (v);
+      ++CS ().constructs;
+    }
+
+    void
+    destroy (T *p)
+    {
+      ++CS ().destroys;
+      p->~T ();
     }
   };
 
@@ -294,6 +321,7 @@ namespace sim
     static const bool always_equal      = true;
     static const bool soccc_toggles     = false;
     static const bool construct_members = false;
+    static const int  construct_mode    = 0;
     static const bool has_max_size      = false;
     static const bool has_hint          = false;
     static const unsigned long max_size_value = 0;
